@@ -267,7 +267,7 @@ def print_digests(pid, verif_seed, n):
     return 0
 
 
-def check(pid, tier, verif_seed, runs=None, workers=None, cap_s=None, minimise_s=25.0):
+def check(pid, tier, verif_seed, runs=None, workers=None, cap_s=None, minimise_s=45.0):
     from .common import merge_stats, run_seed
     from .minimise import minimise
 
